@@ -10,13 +10,13 @@ RULE = (
     "one fitted model of any of the four kinds (generators of C01/C15/C13: pre-computed tied matrices or feature data with a drawn metric; queries include exact copies of training samples) "
     "followed by a HISTORY of 1..6 predict calls on batches drawn with repetition from the query pool (whole pool, single rows, permutations, duplicated rows; batch lengths up to n_train+3 so "
     "that the same sample occurs at batch positions both < n_train and >= n_train). Oracle: table sample (feature bytes / matrix row id) -> first observed (label[, cluster]); every later observation "
-    "of the same sample must equal it exactly; node costs / labels / predecessors of the model are unchanged by the whole history. "
+    "of the same sample must equal it exactly; node costs / labels / predecessors / features of the model are unchanged by the whole history. "
     "non-trivial: some sample was predicted at >= 2 different batch positions, one of them < n_train, and the model outputs >= 2 distinct labels/clusters; distinct by case hash"
 )
 ASSUMPTIONS = ["histories are generated as data (lists of batches) rather than by a rule-based machine: predict has no state-dependent precondition, so a list strategy reaches the same histories and shrinks as one value"]
 BUDGET = {
-    "quick": {"examples": 3200, "shards": 8, "min_nontrivial": 400},
-    "thorough": {"examples": 48000, "shards": 16, "min_nontrivial": 6000, "max_wall": 3000},
+    "quick": {"examples": 9600, "shards": 16, "min_nontrivial": 400},
+    "thorough": {"examples": 192000, "shards": 16, "min_nontrivial": 6000, "max_wall": 3000},
 }
 
 
@@ -62,7 +62,13 @@ def check_case(case):
     nt = base["nt"]
     unsup = base["model"] == "unsup"
     fields = ("cost", "pred", "status", "label", "predicted_label", "root", "cluster_label", "density", "idx_nodes")
-    before = models.node_state(model)
+    def full_state():
+        st_ = models.node_state(model)
+        st_["features"] = [np.asarray(nd.features).tobytes() for nd in model.subgraph.nodes]
+        return st_
+
+    fields = fields + ("features",)
+    before = full_state()
     table = {}
     positions = {}
     outputs = set()
@@ -85,7 +91,7 @@ def check_case(case):
                     key[1] if key[0] == "row" else r.Xq[qi].tolist(), qi, o, bi, pos, first, where, case["batches"], nt))
             else:
                 table[key] = (o, "call %d position %d" % (bi, pos))
-    after = models.node_state(model)
+    after = full_state()
     for f in fields:
         require(before[f] == after[f], "predict_leaves_model_unchanged", lambda: "node field %s changed by predict: %r -> %r" % (f, before[f], after[f]))
     nontriv = len(outputs) >= 2 and any(len(ps) >= 2 and min(ps) < nt for ps in positions.values())
